@@ -181,6 +181,7 @@ class Ctx:
             "reach": dict(self.reach),
             "witnesses": self.witnesses,
             "nfired": self.nfired,
+            "fired_by_monitor": dict(self._per_monitor),
             "samples": self.samples,
             "notes": self.notes,
             "inconclusive": self.inconclusive,
@@ -194,7 +195,7 @@ class MonitorFired(Exception):
 def merge(results):
     out = {"evaluations": 0, "distinct": set(), "classes": collections.Counter(),
            "monitors": collections.Counter(), "skipped": collections.Counter(),
-           "reach": collections.Counter(), "witnesses": [], "nfired": 0, "samples": [],
+           "reach": collections.Counter(), "witnesses": [], "nfired": 0, "fired_by_monitor": collections.Counter(), "samples": [],
            "notes": [], "inconclusive": []}
     for r in results:
         out["evaluations"] += r["evaluations"]
@@ -203,6 +204,7 @@ def merge(results):
             out[k].update(r[k])
         out["witnesses"].extend(r["witnesses"])
         out["nfired"] += r["nfired"]
+        out["fired_by_monitor"].update(r.get("fired_by_monitor", {}))
         for s in r["samples"]:
             if len(out["samples"]) < MAX_SAMPLES + 2:
                 out["samples"].append(s)
